@@ -284,7 +284,9 @@ static void gen_pool(int maxpool)
 {
 	int fam_mode = vh_rn(5); /* 0,1: v4  2,3: v6  4: mixed */
 	int shape = vh_rn(5);
-	bool noncanon = vh_chance(25); /* some pools carry prefixes with host bits set: distinct records with the same leading bits */
+	/* some pools carry prefixes with host bits set (distinct records with the same leading bits): only where the property
+	 * speaks of arbitrary records (C02, C09; VH_NONCANON set by the driver) - C01 is stated for host bits zero */
+	bool noncanon = vh_chance(25) && getenv("VH_NONCANON");
 	int want = 4 + vh_rn(maxpool - 3);
 	struct lrtr_ip_addr base4, base6;
 
